@@ -900,15 +900,24 @@ def par_same_named_handlers():
     return dict(buses=['A', 'B'], order=['A', 'B'], parallel=['A'], reals={'d1': D, 'd2': ['0', '1/10']}, handlers=handlers, main=main, horizon=6)
 
 
-def warm_other_bus_during_await(order=('A', 'B')):
+def warm_other_bus_during_await(order=('A', 'B'), gap=None, prelude=False):
     """B has already processed events (its run loop has been through the global lock before); a handler of A awaits a slow child on
     A while an external task dispatches an unrelated event to B: it must wait until the child (and A's handler) are done."""
     handlers = [['A', 'P', 'hP', [['sleep', 'd1'], ['dispawait', 'A', 'C', 'C1'], ['ret', 'p']]], ['A', 'C', 'hC', [['sleep', 'd2'], ['ret', 'c']]],
                 ['B', 'X', 'hX', [['ret', 'x']]]]
     main = [['root', 'B', 'X', 'X0'], ['idle', 'B'], ['root', 'B', 'X', 'X00'], ['idle', 'B'], ['root', 'A', 'P', 'P1'], ['await', 'P1'],
             ['idle', 'A'], ['idle', 'B'], ['obs_all', 'end']]
-    return dict(buses=['A', 'B'], order=list(order), reals={'d1': D, 'd2': D, 't_x': TI}, handlers=handlers, main=main,
-                actors={'x': [['sleep', 't_x'], ['root', 'B', 'X', 'X1']]}, horizon=6)
+    cfg = dict(buses=['A', 'B'], order=list(order), reals={'d1': D, 'd2': D, 't_x': TI}, handlers=handlers, main=main,
+               actors={'x': [['sleep', 't_x'], ['root', 'B', 'X', 'X1']]}, horizon=6)
+    if gap:
+        # both buses sit idle for a while (several poll intervals) before the scenario proper starts
+        i = main.index(['root', 'A', 'P', 'P1'])
+        main.insert(i, ['sleep', gap])
+        cfg['actors'] = {'x': [['sleep', gap], ['sleep', 't_x'], ['root', 'B', 'X', 'X1']]}
+        cfg['horizon'] = 9
+    if prelude:
+        cfg['prelude_loop'] = True
+    return cfg
 
 
 def timeout_bystander():
@@ -1026,3 +1035,59 @@ def spawned_late_child():
                 ['A', 'L', 'hL', [['sleep', 'd1'], ['ret', 'l']]]]
     main = [['root', 'A', 'P', 'P1'], ['await', 'P1'], ['obs', 'after_await', 'P1'], ['sleep', 't1'], ['obs', 'later', 'P1'], ['sleep', '1'], ['idle', 'A'], ['obs_all', 'end']]
     return dict(buses=['A'], reals={'d1': ['0', '1/5'], 'd3': ['1/100', '1/5'], 't1': ['0', '2/5']}, handlers=handlers, main=main, horizon=6)
+
+
+
+def recur_then_other(rmax=4):
+    """a handler re-dispatches its own event type (fire-and-forget) down to a solver-chosen depth; beyond depth 2 the library's
+    recursion guard refuses the event (finding F2).  Another event accepted meanwhile, queued behind, must still be processed."""
+    handlers = [['A', 'R', 'hR', [['disp', 'A', 'L', 'La_{inv}'], ['recur', 'A', 'r', 'ff'], ['ret', 'r']]], ['A', 'L', 'hL', [['sleep', 'd'], ['ret', 'l']]]]
+    main = [['root', 'A', 'R', 'R0'], ['root', 'A', 'L', 'L1'], ['sleep', '2'], ['obs_all', 'end']]
+    return dict(buses=['A'], reals={'d': ['0', '1/5']}, ints={'r': [0, rmax]}, handlers=handlers, main=main, horizon=7)
+
+
+def loop_died_with_backlog():
+    """a burst is dispatched onto a fresh bus; the handler of the first event lets a CancelledError escape, which ends the run loop
+    task before it ever idled; the rest of the burst was accepted and waits in the queue; a later dispatch restarts the bus: every
+    accepted event is processed."""
+    handlers = [['A', 'L', 'hPoison', [['raise', 'CancelledError']]], ['A', 'P', 'hP', [['sleep', 'd1'], ['ret', 'p']]]]
+    main = [['root', 'A', 'L', 'L0'], ['root', 'A', 'P', 'P1'], ['root', 'A', 'P', 'P2'], ['sleep', 't1'], ['root', 'A', 'P', 'P3'], ['sleep', '2'], ['obs_all', 'end']]
+    return dict(buses=['A'], reals={'d1': ['0', '1/5'], 't1': ['1/100', '1/2']}, handlers=handlers, main=main, horizon=7)
+
+
+def relay_forward_while_third_busy(order=('A', 'B', 'C')):
+    """A is a pure relay (its only handler forwards to B); C's handler holds the global lock when the event arrives; all three buses
+    warm.  B's handler must wait until C's is done."""
+    handlers = [['B', 'P', 'hB', [['sleep', 'd2'], ['ret', 'b']]], ['C', 'X', 'hC', [['sleep', 'd1'], ['ret', 'c']]],
+                ['A', 'X', 'hXA', [['ret', 'x']]], ['B', 'X', 'hXB', [['ret', 'x']]]]
+    main = [['root', 'A', 'X', 'XA0'], ['idle', 'A'], ['root', 'B', 'X', 'XB0'], ['idle', 'B'], ['root', 'C', 'X', 'XC0'], ['idle', 'C'],
+            ['root', 'C', 'X', 'XC1'], ['sleep', 't1'], ['root', 'A', 'P', 'P1'], ['sleep', '1'], ['idle', 'B'], ['idle', 'C'], ['obs_all', 'end']]
+    return dict(buses=['A', 'B', 'C'], order=list(order), reals={'d1': ['0', '2/5'], 'd2': ['1/10', '1/10'], 't1': ['0', '3/10']}, handlers=handlers,
+                typed_forwards_first=[['A', 'B', 'P']], main=main, horizon=8)
+
+
+def long_handler_other_bus_waits():
+    """a handler keeps the global lock for a long time (up to 15 s) while another, warm bus has an event queued all along."""
+    cfg = two_bus_independent(('A', 'B'), 'main')
+    cfg['reals'] = dict(cfg['reals'])
+    cfg['reals']['d1'] = ['0', '15/2']       # (the handler sleeps d1 twice)
+    cfg['horizon'] = 40
+    cfg['default_timeout'] = 120.0
+    return cfg
+
+
+def three_same_names_read_bus():
+    """three live buses that all asked for the same name; a handler on each reads event.event_bus (and dispatches a child through
+    it): it must be the bus running that handler."""
+    handlers = [[b, 'P', f'h{b}', [['read_bus'], ['disp', b, 'C', 'C_{inv}'], ['ret', b.lower()]]] for b in ('A', 'B', 'C')] + \
+               [[b, 'C', f'hC{b}', [['ret', 'c']]] for b in ('A', 'B', 'C')]
+    main = [['root', 'A', 'P', 'P1'], ['root', 'B', 'P', 'P2'], ['root', 'C', 'P', 'P3'], ['idle', 'A'], ['idle', 'B'], ['idle', 'C'], ['obs_all', 'end']]
+    return dict(buses=['A', 'B', 'C'], order=['A', 'B', 'C'], bus_names={'A': 'Worker', 'B': 'Worker', 'C': 'Worker'}, reals={}, handlers=handlers, main=main, horizon=6)
+
+
+def flood_retry_rejected():
+    """a burst larger than the queue onto a bus with a small history limit; after the bus has drained, the rejected event objects are
+    dispatched again: whatever was accepted (first time or on retry) is delivered exactly once."""
+    handlers = [['A', 'C', 'hC', [['ret', 'c']]], ['A', 'C', 'hC2', [['ret', 'c2']], {'sync': True}]]
+    main = [['burst_swallow', 'A', 'C', 'n', 'C'], ['idle', 'A'], ['redispatch_rejected'], ['idle', 'A'], ['obs_all', 'end']]
+    return dict(buses=['A'], ints={'n': [50, 54]}, reals={}, handlers=handlers, main=main, max_history={'A': 10}, horizon=5, rejections_expected=True)
